@@ -166,10 +166,10 @@ PROPS["C12"] = dict(
 
 PROPS["C06"] = dict(
     suites=[dict(name="udp-sys-mio", harness="udp-sys", imports=["UdpSysCheck"], case_type="sys_case",
-                 check="udp_sys_code", monitor="udp_sys_code", count_quick=24, count_thorough=1500, nontrivial_bits=3, shrink=False,
+                 check="udp_sys_code", monitor="udp_sys_code", count_quick=24, count_thorough=250, nontrivial_bits=3, shrink=False,
                  extra={"backend": "mio"}, crash_is_violation=True),
             dict(name="udp-sys-uring", harness="udp-sys", imports=["UdpSysCheck"], case_type="sys_case",
-                 check="udp_sys_code", monitor="udp_sys_code", count_quick=24, count_thorough=1500, nontrivial_bits=3, shrink=False,
+                 check="udp_sys_code", monitor="udp_sys_code", count_quick=24, count_thorough=250, nontrivial_bits=3, shrink=False,
                  extra={"backend": "uring"}, crash_is_violation=True)],
     rule="udp-sys: RUNNING trackers (aquatic_udp::run in the harness process) on loopback, 4 configurations per backend (max_scrape_torrents "
          "in {1,2,3,70}, max_response_peers in {1,2,4,30}, access list off/allow/deny, 1 or 2 socket workers, v4+v6 sockets or one dual-stack "
@@ -214,7 +214,7 @@ PROPS["C16"] = dict(
 
 PROPS["C17"] = dict(
     suites=[dict(name="ws-sys", harness="ws-sys", imports=["WsSysCheck"], case_type="wsys_case",
-                 check="ws_sys_code", monitor="ws_sys_mon", count_quick=40, count_thorough=2000, nontrivial_bits=3, shrink=False,
+                 check="ws_sys_code", monitor="ws_sys_mon", count_quick=40, count_thorough=600, nontrivial_bits=3, shrink=False,
                  crash_is_violation=True)],
     rule="ws-sys: per case a fresh RUNNING tracker (aquatic_ws::run inside a child process of the harness, plain TCP) with socket_workers x "
          "swarm_workers drawn from {1,2,3}^2 and max_scrape_torrents in {1,2,100}; 5 client slots holding WebSocket connections whose "
